@@ -203,16 +203,36 @@ func vhC07Spinner() {
 	} else if pos == 2 {
 		st = st.PositionRight()
 	}
+	// Meta decorates the frame with escape codes: they take no columns on the terminal, but a width measurement
+	// of the decorated string counts their printable bytes (k columns here).
+	esc := vText("sgr")
+	k := vTextWidth(esc)
+	vAssume(k <= 9)
+	metaCalls := 0
+	if vBool("withMeta") {
+		st = st.Meta(func(s string) string { metaCalls++; return esc + s })
+	}
 	f := st.Build().(*sFiller)
 	f.count = vUint("count")
 	vAssume(f.count <= 1<<40)
+	fw := vTextWidth(f0)
+	if f.count%2 == 1 {
+		fw = vTextWidth(f1)
+	}
 	stat := vStat(200)
 	var buf bytes.Buffer
 	err := f.Fill(&buf, stat)
 	vAssert(err == nil, "C07.spinner.noerror")
 	w := vTextWidth(buf.String())
+	vAssert(metaCalls <= 1, "C07.spinner.meta-applied-at-most-once")
+	if metaCalls > 0 && w >= k {
+		w -= k // columns on the terminal
+	}
 	allotted := internal.CheckRequestedWidth(stat.RequestedWidth, stat.AvailableWidth)
 	vAssert(w <= stat.AvailableWidth, "C07.spinner.fits-available")
 	vAssert(w == 0 || w == allotted, "C07.spinner.exact-or-nothing")
+	if fw <= allotted {
+		vAssert(w == allotted, "C07.spinner.a-frame-that-fits-is-drawn-in-the-allotted-width")
+	}
 	vCover("C07.spinner.reach")
 }
